@@ -35,7 +35,7 @@ extern _Bool g_was_member, g_was_overlap, g_was_covered;
 
 /* shape of the representation: pointers valid, len within capacity */
 #define SHAPE(c, room) (__CPROVER_is_fresh((c), sizeof(coverage)) && V(c).cap <= VEC_MAX && \
-   V(c).len + (room) <= V(c).cap && __CPROVER_is_fresh(V(c).data, V(c).cap * sizeof(cov_range)))
+   V(c).cap >= (room) && V(c).len <= V(c).cap - (room) && __CPROVER_is_fresh(V(c).data, V(c).cap * sizeof(cov_range)))
 
 #include "specfn.h"
 
